@@ -111,6 +111,7 @@ func sequenceGenerator(
 		stop := stops[idx]
 		if !used[idx] && inDegree[stop.ModelStop().Index()] == 0 {
 			used[idx] = true
+			directSuccessor = -1
 			outboundArcs := dag.OutboundArcs(stop.ModelStop())
 			if len(outboundArcs) == 1 {
 				arc := outboundArcs[0]
